@@ -125,6 +125,35 @@ theorem loop_filter (keep : Nat → Bool) (xs : List α) :
   · simp; omega
   · omega
 
+theorem go_snd (keep : Nat → Bool) : ∀ (rest : List α) (i : Nat) (kept junk : List α),
+    (go keep i kept junk rest).2.Perm (junk ++ filterIdx (fun j => !keep j) i rest)
+  | [], i, kept, junk => by simp [go, filterIdx]
+  | x :: r, i, kept, junk => by
+    by_cases hp : keep i
+    · cases junk with
+      | nil => simpa [go, filterIdx, hp] using go_snd keep r (i + 1) (kept ++ [x]) []
+      | cons j0 js =>
+        have := go_snd keep r (i + 1) (kept ++ [x]) (js ++ [j0])
+        simp only [go, filterIdx, hp, Bool.not_true, Bool.false_eq_true, ↓reduceIte]
+        refine this.trans ?_
+        refine List.Perm.append_right _ ?_
+        exact (List.perm_append_comm (l₁ := js) (l₂ := [j0]))
+    · have := go_snd keep r (i + 1) kept (junk ++ [x])
+      simp only [go, filterIdx, hp, Bool.not_false, ↓reduceIte]
+      simpa [List.append_assoc] using this
+
+/-- what the final `truncate` discards is, as a multiset, what the callback rejected -/
+theorem loop_junk (keep : Nat → Bool) (xs : List α) :
+    let r := loop keep none xs.length 0 0 xs []
+    (r.1.drop (xs.length - r.2.1)).Perm (filterIdx (fun j => !keep j) 0 xs) := by
+  have h := loop_go keep xs [] [] []
+  have h2 := go_len keep xs 0 [] []
+  have h3 := go_snd keep xs 0 [] []
+  simp only [List.length_nil, Nat.add_zero, List.nil_append] at h h2 h3
+  simp only [h]
+  rw [List.drop_append_of_le_length (by omega), List.drop_of_length_le (by omega)]
+  simpa using h3
+
 /-- whatever happens (also when the callback panics), the list stays a permutation of the input -/
 theorem loop_perm (keep : Nat → Bool) (boom : Option Nat) :
     ∀ (f i del : Nat) (xs vis : List α), (loop keep boom f i del xs vis).1.Perm xs
